@@ -76,8 +76,15 @@ def noConnExc : Exc := ⟨.exc, 1000003⟩
 
 inductive Step
   | create (k : Key) (v : Int)
+  /-- `Cls.get(k).v = x` inside the body (not-found when the row is gone) -/
   | update (k : Key) (v : Int)
+  /-- `Cls.get(k).destroySelf()` inside the body -/
   | delete (k : Key)
+  /-- `inst.v = x` on an instance the program obtained BEFORE the call (by `get` or from a `select`): it follows the
+      hub into the transaction; an UPDATE that matches no row is not an error -/
+  | updateInst (k : Key) (v : Int)
+  /-- `inst.destroySelf()` on such an instance (a DELETE that matches no row is not an error) -/
+  | deleteInst (k : Key)
   deriving DecidableEq, Repr
 
 structure Body where
@@ -91,6 +98,8 @@ def applyStep (v : View) : Step → Except Exc View
   | .create k x => if (v k).isSome then .error dupExc else .ok (upd v k (some x))
   | .update k x => if (v k).isSome then .ok (upd v k (some x)) else .error notFoundExc
   | .delete k => if (v k).isSome then .ok (upd v k none) else .error notFoundExc
+  | .updateInst k x => .ok (if (v k).isSome then upd v k (some x) else v)
+  | .deleteInst k => .ok (upd v k none)
 
 def applySteps (v : View) : List Step → Except Exc View
   | [] => .ok v
